@@ -81,6 +81,55 @@ fn modes(r: &mut Rng) -> [Mode; 3] {
     [Mode::Panic, Mode::Fill(l, rr), Mode::Extrap]
 }
 
+
+// ---- extended regimes of the failure search (coverage audit: every range the quantifier names, to its stated end) ----
+const FMAX: f64 = f64::MAX;
+/// 2^k exactly
+fn pow2(k: i32) -> f64 { 2f64.powi(k) }
+/// strictly increasing abscissae of the extended regimes (`reg`):
+///  1 plain spacings 10^[-3,3] (used with forced knot counts 200 / 199 / 2 / 3)
+///  2 spacings drawn from {1e-3, 1e3} only: neighbouring spacings in the ratio 1e6 exactly, at every position
+///  3 neighbouring doubles (1..3 ulp apart): +-1 ulp around a knot IS the next knot or leaves the range
+///  4 plain spacings, whole vector scaled by 2^k (k = -1060 .. 1000: subnormal, tiny, huge abscissae; widths never overflow)
+///  5 mirrored: all abscissae negative, magnitudes decreasing
+fn knots_ext(r: &mut Rng, n: usize, reg: u64) -> Vec<f64> {
+    let mut x: Vec<f64> = match reg {
+        2 => { let mut c = r.uniform(-50.0, 50.0); let mut v = vec![]; let mut big = r.coin(0.5);
+               for _ in 0..n { v.push(c); let nx = c + if big { 1e3 } else { 1e-3 }; if r.coin(0.8) { big = !big; } c = if nx > c { nx } else { up(c) }; } v }
+        3 => { let start = match r.below(5) { 0 => r.uniform(-50.0, 50.0), 1 => down(down(pow2(r.range(-3, 10) as i32))), 2 => -up(up(pow2(r.range(-3, 10) as i32))), 3 => -3.0 * 5e-324, _ => r.uniform(-1.0, 1.0) * 10f64.powi(r.range(-300, 300) as i32) };
+               let mut c = start; let mut v = vec![]; for _ in 0..n { v.push(c); for _ in 0..1 + r.below(3) { c = up(c); } } v }
+        4 => { let k = *r.pick(&[-1060, -1022, -1000, -500, -60, 60, 500, 1000]); let s = pow2(k); let ig = r.coin(0.2); knots(r, n, 3.0, ig).iter().map(|v| v * s).collect() }
+        5 => { let mut v: Vec<f64> = knots(r, n, 3.0, false).iter().map(|v| -(v.abs() + 1.0)).collect(); v.sort_by(|a, b| a.partial_cmp(b).unwrap()); v }
+        _ => { let ig = r.coin(0.3); knots(r, n, 3.0, ig) }
+    };
+    // scaling into the subnormal range (or the mirror) can merge neighbours: keep the strictly increasing subsequence, refill to >= 2 knots
+    x.dedup();
+    let mut out: Vec<f64> = vec![]; for v in x { if out.last().map_or(true, |l| v > *l) { out.push(v); } }
+    while out.len() < 2 { let l = *out.last().unwrap_or(&0.0); out.push(up(l)); }
+    out
+}
+/// ordinates of the extended regimes: the kinds 0..4 of `ordinates` plus
+///  5 arbitrary finite magnitudes up to the largest double (mixed signs), 6 one constant (any magnitude), 7 same sign, within a few ulp .. 1e-3 of +-MAX,
+///  8 every ordinate +-MAX / +-MAX/2 / 0
+fn ordinates_ext(r: &mut Rng, n: usize, kind: u64) -> Vec<f64> {
+    match kind {
+        5 => (0..n).map(|_| r.uniform(-1.0, 1.0) * if r.coin(0.5) { FMAX } else { 10f64.powi(r.range(300, 308) as i32) }).map(|v| if v.is_finite() { v } else { FMAX }).collect(),
+        6 => { let c = match r.below(5) { 0 => FMAX, 1 => -FMAX, 2 => 5e-324, 3 => r.uniform(-4.0, 4.0), _ => r.uniform(-1.0, 1.0) * 10f64.powi(r.range(-308, 308) as i32) }; vec![c; n] }
+        7 => { let sg = if r.coin(0.5) { 1.0 } else { -1.0 }; (0..n).map(|_| sg * match r.below(3) { 0 => FMAX, 1 => f64::from_bits(FMAX.to_bits() - r.below(4)), _ => FMAX * (1.0 - 1e-3 * r.unit()) }).collect() }
+        8 => (0..n).map(|_| *r.pick(&[FMAX, -FMAX, FMAX / 2.0, -FMAX / 2.0, 0.0, -0.0])).collect(),
+        k => ordinates(r, n, k),
+    }
+}
+/// targets beyond the ends at the vector's own scale (the plain generators use the absolute offsets 1e-3, 1, 1e6): 1 or 2 ulp, a fraction of the
+/// span, 1e6 and 1e12 mean spacings, the largest finite double
+fn beyond_ext(r: &mut Rng, x: &[f64], above: bool) -> f64 {
+    let n = x.len(); let w = x[n - 1] - x[0]; let s = w / (n - 1) as f64;
+    let e = if above { x[n - 1] } else { x[0] }; let sg = if above { 1.0 } else { -1.0 };
+    let step = |v: f64| if above { up(v) } else { down(v) };
+    let t = match r.below(7) { 0 => step(e), 1 => step(step(e)), 2 => e + sg * w * r.unit(), 3 => e + sg * s * 1e6 * (1.0 + r.unit()), 4 => e + sg * s * 1e12, 5 => sg * FMAX, _ => e + sg * s };
+    if t.is_finite() { t } else { sg * FMAX }
+}
+
 fn push(cs: &mut Cases, checked: bool, x: &[f64], y: &[f64], t: &[f64], m: Mode, tag: &str, nt: bool) {
     let res = run(checked, x, y, t, m);
     let tag = format!("{}/{}/{}/{}", tag, if checked { "checked" } else { "unchecked" }, m.name(), if res.is_ok() { "value" } else { "panic" });
@@ -175,21 +224,52 @@ pub fn gen(tier: &str, seed: u64, outdir: &str) {
         let res = run(checked, &x, &y, &t, m);
         push(&mut cs, checked, &x, &y, &t, m, "malformed-stream", res.is_err() || nx != ny);
     }
+    // 5. the extended regimes of the failure search (coverage audit): knot counts 200 / 199 / 2 / 3, neighbouring spacings in the ratio 1e6 exactly,
+    //    neighbouring doubles as abscissae, abscissae scaled by 2^-1060 .. 2^1000, all-negative abscissae; ordinates up to +-MAX, constant, signed
+    //    zeros / subnormals; fill values at any magnitude; targets 1 and 2 ulp beyond the ends, 1e6 and 1e12 mean spacings away, +-MAX
+    let next = if thorough { 3000 } else { 240 };
+    for it in 0..next {
+        let reg = 1 + (it % 5) as u64;
+        let n = match (it / 5) % 12 { 0 => 200, 1 => 199, 2 => 2, 3 => 3, 4 => 2 + r.below(199) as usize, _ => 2 + r.below(12) as usize };
+        let x = knots_ext(&mut r, n, reg);
+        let n = x.len();
+        let yk = *r.pick(&[0, 1, 2, 3, 4, 5, 5, 6, 7, 8]);
+        let y = ordinates_ext(&mut r, n, yk);
+        let m0 = modes(&mut r);
+        let m = match it % 3 { 0 => m0[0], 1 => if r.coin(0.5) { m0[1] } else { Mode::Fill(r.uniform(-1.0, 1.0) * 10f64.powi(r.range(-320, 308) as i32), *r.pick(&[FMAX, -FMAX, 5e-324, 1.0, -0.0])) }, _ => m0[2] };
+        let kk = 2 + r.below(6) as usize; let mut t = inner_targets(&mut r, &x, kk);
+        t.push(x[0]); t.push(x[n - 1]); t.push(up(x[0])); t.push(down(x[n - 1]));
+        if m != Mode::Panic || it % 2 == 0 {
+            for above in [false, true] { let c = 1 + r.below(2); for _ in 0..c { let p = r.below(t.len() as u64 + 1) as usize; let v = beyond_ext(&mut r, &x, above); t.insert(p, v); } }
+        }
+        push(&mut cs, r.coin(0.5), &x, &y, &t, m, "extended", true);
+    }
     cs.write(outdir, 150,
-             "every knot count 2..18 x 3 (quick) / 2..40 x 16 (thorough) and random counts up to 200, strictly increasing abscissae with spacings 10^[-3,3] (ratios up to 1e6) or integer grids, ordinates: small integers / uniform / 1e+-300 magnitudes / signed zeros and subnormals; targets at knots, midpoints, +-1 ulp around every knot, random interior points, beyond both ends (1 ulp, within a span, 1e6 away); all three modes (several fill pairs incl. NaN/inf/-0), checked and unchecked variants; special values (NaN, +-inf, +-0, subnormal, +-max) in targets, ordinates and abscissae, overflowing spans, subnormal spacings, empty target lists; a malformed stream (lengths 0..6 independently, unsorted and repeated abscissae); non-trivial = a target strictly inside a segment or outside the range, or a rejected call; distinct by hash of the case term");
+             "extended regimes (knot counts 200/199/2/3, spacings {1e-3,1e3}, neighbouring doubles, abscissae scaled by 2^-1060..2^1000, all-negative; ordinates up to +-MAX / constant / zeros and subnormals; fills at any magnitude; targets 1-2 ulp, 1e6 and 1e12 spacings and +-MAX beyond the ends); every knot count 2..18 x 3 (quick) / 2..40 x 16 (thorough) and random counts up to 200, strictly increasing abscissae with spacings 10^[-3,3] (ratios up to 1e6) or integer grids, ordinates: small integers / uniform / 1e+-300 magnitudes / signed zeros and subnormals; targets at knots, midpoints, +-1 ulp around every knot, random interior points, beyond both ends (1 ulp, within a span, 1e6 away); all three modes (several fill pairs incl. NaN/inf/-0), checked and unchecked variants; special values (NaN, +-inf, +-0, subnormal, +-max) in targets, ordinates and abscissae, overflowing spans, subnormal spacings, empty target lists; a malformed stream (lengths 0..6 independently, unsorted and repeated abscissae); non-trivial = a target strictly inside a segment or outside the range, or a rejected call; distinct by hash of the case term");
 }
 
 // ---------------------------------------------------------------------------------------------
 // failure-search oracle: the property's statement against the implementation only
 const EPS: f64 = f64::EPSILON;
-fn line(x0: f64, y0: f64, x1: f64, y1: f64, t: f64) -> (f64, f64) {
+fn line(x0: f64, y0: f64, x1: f64, y1: f64, t: f64) -> (f64, f64) { line_(x0, y0, x1, y1, t, false) }
+/// `inside`: the target lies in the segment [x0, x1] (the chord value is then between the ordinates, hence finite, also when y1 - y0 overflows)
+fn line_(x0: f64, y0: f64, x1: f64, y1: f64, t: f64, inside: bool) -> (f64, f64) {
     // the straight line through (x0,y0), (x1,y1) at t, and the rounding allowance granted to a binary64 evaluation
     let r = (t - x0) / (x1 - x0);
+    if inside && !(y1 - y0).is_finite() && y0.is_finite() && y1.is_finite() && r >= 0.0 && r <= 1.0 {
+        // in-segment target, ordinates of opposite sign whose difference overflows: the chord value itself is between the ordinates, hence finite;
+        // evaluate the same line on ordinates scaled by 1/4 (exact) and scale back (exact: |v| <= max|y|)
+        let (a, b) = (y0 / 4.0, y1 / 4.0);
+        let v = (a + r * (b - a)) * 4.0;
+        let tol = (32.0 * EPS * (1.0 + r.abs()) * (a.abs() + b.abs())) * 4.0;
+        return (v, tol);
+    }
     let v = y0 + r * (y1 - y0);
     // proved for in-segment targets (C16_line_error_binary64, u = EPS/2): |v - line| <= 3u max(|y0|,|y1|) + (4u + 2^-1075)|y1 - y0| + 2^-1073
     // <= (7u + 2^-1075)(|y0| + |y1|) + 2^-1073; the allowance below (64u(1 + |r|)(|y0| + |y1|) + 64 * 2^-1074) also covers the few roundings of
     // the reference `v` itself and the extrapolation formulas (|r| > 1), and is never tighter than what is proved
-    let tol = 32.0 * EPS * (1.0 + r.abs()) * (y0.abs() + y1.abs()) + 64.0 * 5e-324;
+    let tol = if (y0.abs() + y1.abs()).is_finite() { 32.0 * EPS * (1.0 + r.abs()) * (y0.abs() + y1.abs()) + 64.0 * 5e-324 }
+              else { (32.0 * EPS * (1.0 + r.abs()) * (y0.abs() / 4.0 + y1.abs() / 4.0)) * 4.0 }; // |y0| + |y1| overflows: same allowance, evaluated without the overflow
     (v, tol)
 }
 fn jf(v: &[f64]) -> String { json_floats(v) }
@@ -206,17 +286,37 @@ pub fn oracle(tier: &str, seed: u64) -> (u64, Vec<Finding>) {
     let mut r = Rng::new(seed ^ 0xC16);
     let mut out: Vec<Finding> = vec![]; let mut tried = 0u64;
     let iters = if tier == "thorough" { 30000 } else { 3000 };
-    for it in 0..iters {
-        let n = if it % 10 == 9 { 2 + r.below(199) as usize } else { 2 + r.below(12) as usize };
-        let integer = r.coin(0.3);
-        let x = knots(&mut r, n, 3.0, integer);
-        let yk = if integer { 0 } else { 1 + r.below(2) };
-        let y = ordinates(&mut r, n, yk);
-        let checked = r.coin(0.5);
+    // the extended regimes (`reg` > 0) run AFTER the original iterations, so the original evaluation points are unchanged
+    let extra = if tier == "thorough" { 20000 } else { 2000 };
+    for it in 0..iters + extra {
+        let reg: u64 = if it < iters { 0 } else { 1 + ((it - iters) % 5) as u64 };
+        let (x, y, checked, ms);
+        if reg == 0 {
+            let n = if it % 10 == 9 { 2 + r.below(199) as usize } else { 2 + r.below(12) as usize };
+            let integer = r.coin(0.3);
+            x = knots(&mut r, n, 3.0, integer);
+            let yk = if integer { 0 } else { 1 + r.below(2) };
+            y = ordinates(&mut r, n, yk);
+            checked = r.coin(0.5);
+            let m0 = modes(&mut r);
+            let (fl_, fr_) = (r.uniform(-9.0, 9.0), r.uniform(-9.0, 9.0));
+            ms = [m0[0], Mode::Fill(fl_, fr_), m0[2]];
+        } else {
+            // knot counts: the stated maximum 200 and 199, the minimum 2, 3, every count in between; small counts most of the time
+            let e = (it - iters) / 5;
+            let n = match e % 20 { 0 => 200, 1 => 199, 2 => 2, 3 => 3, 4 | 5 => 2 + r.below(199) as usize, _ => 2 + r.below(12) as usize };
+            x = knots_ext(&mut r, n, reg);
+            let n = x.len();
+            let yk = *r.pick(&[0, 1, 2, 3, 4, 5, 5, 6, 7, 8]);
+            y = ordinates_ext(&mut r, n, yk);
+            checked = r.coin(0.5);
+            // fill pairs: the special ones (NaN, infinities, signed zeros) half of the time, else random at any magnitude
+            let m0 = modes(&mut r);
+            let f = if r.coin(0.5) { m0[1] } else { Mode::Fill(r.uniform(-1.0, 1.0) * 10f64.powi(r.range(-320, 308) as i32), *r.pick(&[FMAX, -FMAX, 5e-324, 1.0, -0.0])) };
+            ms = [m0[0], f, m0[2]];
+        }
+        let n = x.len();
         let name = if checked { "interp1d_linear" } else { "interp1d_linear_unchecked" };
-        let ms = modes(&mut r);
-        let (fl_, fr_) = (r.uniform(-9.0, 9.0), r.uniform(-9.0, 9.0));
-        let ms = [ms[0], Mode::Fill(fl_, fr_), ms[2]];
         for m in ms {
             let inp = |t: &[f64]| describe(checked, &x, &y, t, m);
             // (a) at every knot (one call with all knots as targets): the ordinate, exactly
@@ -232,6 +332,9 @@ pub fn oracle(tier: &str, seed: u64) -> (u64, Vec<Finding>) {
             }
             // (b) inside segments: on the line, between the ordinates
             let j = r.below(n as u64 - 1) as usize;
+            // extended regimes: also the FIRST and the LAST segment (a random segment of 200 is almost never one of them)
+            let js = if reg == 0 { vec![j] } else { vec![j, 0, n - 2] };
+            for j in js {
             let ts = [x[j] + (x[j + 1] - x[j]) / 2.0, up(x[j]), down(x[j + 1]), x[j] + (x[j + 1] - x[j]) * r.unit()];
             for t in ts {
                 if !(x[j] <= t && t <= x[j + 1]) { continue; }
@@ -240,7 +343,7 @@ pub fn oracle(tier: &str, seed: u64) -> (u64, Vec<Finding>) {
                     Err(e) => out.push(Finding { class: format!("in-range:panics mode={}", m.name()), what: format!("target {:e} inside segment {} panicked: {}", t, j, e), input: inp(&[t]) }),
                     Ok(v) => {
                         if v.len() != 1 { out.push(Finding { class: "result-length".into(), what: format!("{} results for 1 target", v.len()), input: inp(&[t]) }); continue; }
-                        let (w, tol) = line(x[j], y[j], x[j + 1], y[j + 1], t);
+                        let (w, tol) = line_(x[j], y[j], x[j + 1], y[j + 1], t, true);
                         if !(w.is_finite() && tol.is_finite()) { continue; }
                         if !((v[0] - w).abs() <= tol) { out.push(Finding { class: "inside:off-line".into(), what: format!("returned {:e}, the chord of segment {} gives {:e}", v[0], j, w), input: inp(&[t]) }); }
                         // "between the ordinates" holds on binary64 only up to rounding. Proved (C16_between_up_to_rounding_binary64, for every
@@ -253,9 +356,11 @@ pub fn oracle(tier: &str, seed: u64) -> (u64, Vec<Finding>) {
                     }
                 }
             }
+            }
             // (c) outside the range, per mode
-            for above in [false, true] {
-                let t = if above { above_target(&mut r, &x) } else { below_target(&mut r, &x) };
+            for (above, ext) in [(false, false), (true, false), (false, true), (true, true)] {
+                if ext && reg == 0 { continue; }
+                let t = if ext { beyond_ext(&mut r, &x, above) } else if above { above_target(&mut r, &x) } else { below_target(&mut r, &x) };
                 if !(if above { t > x[n - 1] } else { t < x[0] }) { continue; }
                 let side = if above { "above" } else { "below" };
                 tried += 1;
@@ -270,8 +375,12 @@ pub fn oracle(tier: &str, seed: u64) -> (u64, Vec<Finding>) {
                     }
                     (Mode::Extrap, Ok(v)) => {
                         let (a, b) = if above { (n - 2, n - 1) } else { (0, 1) };
+                        // demanded where the segment's rise y1 - y0 and the line's value at the target are binary64 numbers (the reference is then finite)
                         let (w, tol) = line(x[a], y[a], x[b], y[b], t);
                         if !(w.is_finite() && tol.is_finite()) { continue; }
+                        // the allowance around the reference reaches beyond the largest double: the line's value may round to an infinity of that sign
+                        // (y = [0, MAX], x = [-2, 1], target 1 + 2^-52: the exact value MAX (1 + 7.4e-17) is above MAX + ulp/2)
+                        if !(w.abs() + tol <= FMAX) && v.len() == 1 && v[0].is_infinite() && (v[0] > 0.0) == (w > 0.0) { continue; }
                         if v.len() != 1 || !((v[0] - w).abs() <= tol) { out.push(Finding { class: format!("{}:extrapolate-off-line", side), what: format!("returned {:?}, the continued {} segment gives {:e}", v, if above { "last" } else { "first" }, w), input: inp(&[t]) }); }
                     }
                 }
@@ -284,10 +393,28 @@ pub fn oracle(tier: &str, seed: u64) -> (u64, Vec<Finding>) {
             let mut ts: Vec<f64> = x.iter().rev().cloned().collect();
             for _ in 0..n.min(12) {
                 let j = r.below(n as u64 - 1) as usize;
-                ts.push(match r.below(4) { 0 => x[j], 1 => x[j] + (x[j + 1] - x[j]) * r.unit(), 2 => below_target(&mut r, &x), _ => above_target(&mut r, &x) });
+                ts.push(match r.below(4) { 0 => x[j], 1 => x[j] + (x[j + 1] - x[j]) * r.unit(), 2 => if reg > 0 && r.coin(0.5) { beyond_ext(&mut r, &x, false) } else { below_target(&mut r, &x) }, _ => if reg > 0 && r.coin(0.5) { beyond_ext(&mut r, &x, true) } else { above_target(&mut r, &x) } });
             }
             for i in (1..ts.len()).rev() { let k = r.below(i as u64 + 1) as usize; if i >= n { ts.swap(i, k.max(n).min(i)); } }
             tried += 1;
+            {
+                // both variants on the whole list, every mode (Panic included: the same outcome, value or panic)
+                for mm in ms {
+                    tried += 1;
+                    let (a, b) = (orun(true, &x, &y, &ts, mm), orun(false, &x, &y, &ts, mm));
+                    let same = match (&a, &b) { (Ok(u), Ok(v)) => u.len() == v.len() && u.iter().zip(v.iter()).all(|(p, q)| p.to_bits() == q.to_bits()), (Err(_), Err(_)) => true, _ => false };
+                    if !same { out.push(Finding { class: "checked-differs-from-unchecked".into(), what: format!("checked {:?} vs unchecked {:?} on strictly increasing abscissae", a, b), input: describe(true, &x, &y, &ts, mm) }); }
+                }
+                // an empty target list: one result per target, i.e. the empty vector, in every mode (no target is out of range)
+                for mm in ms { for ck in [false, true] {
+                    tried += 1;
+                    match orun(ck, &x, &y, &[], mm) {
+                        Ok(v) if v.is_empty() => {}
+                        Ok(v) => out.push(Finding { class: "result-length".into(), what: format!("{} results for 0 targets", v.len()), input: describe(ck, &x, &y, &[], mm) }),
+                        Err(e) => out.push(Finding { class: format!("in-range:panics mode={}", mm.name()), what: format!("an empty target list panicked: {}", e), input: describe(ck, &x, &y, &[], mm) }),
+                    }
+                }}
+            }
             if let Ok(all) = orun(checked, &x, &y, &ts, m) {
                 if all.len() != ts.len() { out.push(Finding { class: "result-length".into(), what: format!("{} results for {} targets", all.len(), ts.len()), input: describe(checked, &x, &y, &ts, m) }); }
                 else {
@@ -307,7 +434,7 @@ pub fn oracle(tier: &str, seed: u64) -> (u64, Vec<Finding>) {
         //     in-range ones, in any order) makes the call panic
         if n >= 2 {
             let mut ts: Vec<f64> = (0..1 + r.below(4)).map(|_| { let j = r.below(n as u64 - 1) as usize; x[j] + (x[j + 1] - x[j]) * r.unit() }).collect();
-            let bad = if r.coin(0.5) { above_target(&mut r, &x) } else { below_target(&mut r, &x) };
+            let bad = if reg > 0 && r.coin(0.5) { let ab = r.coin(0.5); beyond_ext(&mut r, &x, ab) } else if r.coin(0.5) { above_target(&mut r, &x) } else { below_target(&mut r, &x) };
             if bad > x[n - 1] || bad < x[0] {
                 let pos = r.below(ts.len() as u64 + 1) as usize; ts.insert(pos, bad);
                 tried += 1;
@@ -352,10 +479,34 @@ pub fn oracle(tier: &str, seed: u64) -> (u64, Vec<Finding>) {
                     out.push(Finding { class: "length-mismatch-accepted".into(), what: format!("{} abscissae with {} ordinates accepted, returned {:?}", n, ny, v), input: format!("checked={} x={} y={} tgt={}", ck, jf(&x), jf(&yy), jf(&t)) });
                 }
             }
+            if reg > 0 {
+                // a descent at the FIRST or at the LAST pair only (the ends of the sortedness loop), every mode, also with no target
+                for (i, k) in [(0usize, 1usize), (n - 2, n - 1)] {
+                    let mut xe = x.clone(); xe.swap(i, k);
+                    let m2 = ms[r.below(3) as usize];
+                    for tt in [&t[..], &[][..]] {
+                        tried += 1;
+                        if let Ok(v) = orun(true, &xe, &y, tt, m2) {
+                            out.push(Finding { class: "checked:unsorted-accepted".into(), what: format!("abscissae with a descent at the pair ({}, {}) of {} were accepted, returned {:?}", i, k, n, v), input: format!("interp1d_linear(x={}, y={}, tgt={}, mode={:?})", jf(&xe), jf(&y), jf(tt), m2) });
+                        }
+                    }
+                }
+                // any mismatch is refused before a target is looked at: no ordinates at all, far too many, every mode, also with no target
+                let ny2 = if r.coin(0.5) { 0 } else { 2 * n + 1 };
+                let yy2 = ordinates(&mut r, ny2, 0);
+                let m2 = ms[r.below(3) as usize];
+                for ck in [false, true] { for tt in [&t[..], &[][..]] {
+                    tried += 1;
+                    if let Ok(v) = orun(ck, &x, &yy2, tt, m2) {
+                        out.push(Finding { class: "length-mismatch-accepted".into(), what: format!("{} abscissae with {} ordinates accepted, returned {:?}", n, ny2, v), input: format!("checked={} x={} y={} tgt={} mode={:?}", ck, jf(&x), jf(&yy2), jf(tt), m2) });
+                    }
+                }}
+            }
             // sorted input is accepted by the checked variant and agrees with the unchecked one
             tried += 1;
             let a = orun(true, &x, &y, &t, Mode::Extrap); let b = orun(false, &x, &y, &t, Mode::Extrap);
-            if a != b { out.push(Finding { class: "checked-differs-from-unchecked".into(), what: format!("checked {:?} vs unchecked {:?} on strictly increasing abscissae", a, b), input: format!("x={} y={} tgt={}", jf(&x), jf(&y), jf(&t)) }); }
+            let same = match (&a, &b) { (Ok(u), Ok(v)) => u.len() == v.len() && u.iter().zip(v.iter()).all(|(p, q)| p.to_bits() == q.to_bits()), (Err(_), Err(_)) => true, _ => false };
+            if !same { out.push(Finding { class: "checked-differs-from-unchecked".into(), what: format!("checked {:?} vs unchecked {:?} on strictly increasing abscissae", a, b), input: format!("x={} y={} tgt={}", jf(&x), jf(&y), jf(&t)) }); }
         }
         if out.len() > 60 { break; }
     }
